@@ -4,9 +4,12 @@ PROP = dict(
     title="Liquidation is safe and live",
     lean_modules=["Comdex.Props.C09"],
     namespaces=["Comdex.C09"],
-    required_theorems=["Comdex.C09.safe_never_seized", "Comdex.C09.unsafe_test_is_strict",
+    required_theorems=["Comdex.C09.safe_never_seized", "Comdex.C09.guarded_vault_never_seized", "Comdex.C09.guards_reject",
+                       "Comdex.C09.unsafe_test_is_strict",
                        "Comdex.C09.ratio_test_safe_side_exact", "Comdex.C09.borrow_ratio_test_safe_side_exact",
                        "Comdex.C09.borrow_threshold_cases", "Comdex.C09.borrow_at_or_below_threshold_is_safe",
+                       "Comdex.C09.vault_safe_after_accrual_not_seized", "Comdex.C09.vault_decision_is_on_recorded_debt",
+                       "Comdex.C09.borrow_decision_after_accrual",
                        "Comdex.C09.slice_in_bounds", "Comdex.C09.slice_panics_iff_counter_exceeds_list",
                        "Comdex.C09.panic_reachable_if_counter_gt_length", "Comdex.C09.pass_follows_abstract_sweep",
                        "Comdex.C09.sweep_live_partial", "Comdex.C09.two_sweeps_if_one_shift",
@@ -14,10 +17,11 @@ PROP = dict(
                        "Comdex.C09.v2_vault_offset_independent_of_borrow_pass", "Comdex.C09.v2_witness_seized",
                        "Comdex.C09.borrow_step_atomic", "Comdex.C09.failing_step_leaves_no_writes",
                        "Comdex.C09.flagged_borrow_is_backed", "Comdex.C09.v2_borrow_witness_atomic",
-                       "Comdex.C09.seize_moves_exactly_collateral", "Comdex.C09.seize_opens_one_auction"],
+                       "Comdex.C09.seize_moves_exactly_collateral", "Comdex.C09.seize_opens_one_auction",
+                       "Comdex.C09.v1_selloff_records", "Comdex.C09.v1_selloff_can_exceed_collateral_counterexample"],
     harness_tests=["TestC09"],
     monitors=["safe_never_seized", "slice_bounds", "seized_within_bound", "seized_within_two_sweeps", "seized_late_after_divergence",
-              "gen1_app3_offset_collision", "seize_exact_collateral", "one_auction", "store_order"],
+              "gen1_app3_offset_collision", "gen1_selloff_exceeds_collateral", "seize_exact_collateral", "one_auction", "store_order"],
     trusted_base=[KERNEL_TB, HARNESS_TB, DEC_TB,
                   "Model/Liquidation.lean is hand-written from x/liquidation (liquidate_vaults.go, msg_server.go, liquidate_borrow.go "
                   "offset bookkeeping, types/liquidations.go), x/liquidationsV2 (liquidate.go, offset.go, msg_server.go), "
@@ -25,11 +29,13 @@ PROP = dict(
                   "types/utils.go ApplyFuncIfNoError and the auction starts; tied by running the real BeginBlockers, the real "
                   "liquidate messages (router, cache context) and the pure helpers and comparing vault list, counter, offsets, "
                   "module custody, id counters, new locked vaults and new auctions after every block / message",
-                  "interest accrued inside a seizure (x/rewards, x/lend) is an external value: the debt recorded in the locked "
-                  "vault is not compared; the borrow debt the decision looks at is obtained from the real keeper",
+                  "interest accrued inside a seizure (x/rewards float arithmetic, x/lend indexes) is an external value obtained from the real "
+                  "keeper at the state in which the code asks for it; everything computed from it (debt, fee, bonus, target, ratio on the "
+                  "locked vault and the auction) is modelled and compared bit for bit",
                   "Go slicing beyond len but within cap reads phantom entries instead of panicking; the model uses len "
                   "(only reachable with an inconsistent counter)",
-                  "generation-1 borrow sell-off (UpdateLockedBorrows) and English auctions are not modelled"],
+                  "generation-1 borrow sell-off: the amounts of UpdateLockedBorrows are modelled (sellOffV1) and compared through a direct keeper "
+                  "call on a branch; its auction start (LendDutchActivator) and English auctions are not modelled"],
     assumptions=["vault ids / borrow ids are unique (they are store keys)",
                  "amounts are non-negative and below 2^63 where the code calls Int64()",
                  "every vault's product, pair and assets exist (stores are referentially consistent)",
